@@ -43,14 +43,16 @@ class CodecRegistry(object):
 
     def add_file_codec(self, codec: FileCodecProtocol) -> None:
         """added codecs come on top"""
+        if codec.ref() in self._protocols:
+            # The reference is what a blob records: blobs written by this codec would be read back by the
+            # codec that holds the reference. The codec is skipped altogether (its types too).
+            _logger.warning(f"{codec.ref()} already in protocols, skipping {codec}")
+            return
         self.file_codecs.insert(0, codec)
         for t in codec.handled_types():
             if t not in self._handled_types:
                 self._handled_types[t] = codec
-        if codec.ref() in self._protocols:
-            _logger.warning(f"{codec.ref()} already in protocols, skipping {codec}")
-        else:
-            self._protocols[codec.ref()] = codec
+        self._protocols[codec.ref()] = codec
 
     # TODO: add the location too.
     def get_codec(
